@@ -267,6 +267,48 @@ def check(ctx):
                  "_Atomic qualifier stays nested inside a TypeDecl, and the generator - which prints qualifiers from TypeDecl.quals only - drops it (`sizeof(_Atomic(int))` is generated as `sizeof(int)`)", m_)
     if nfix < 3:
         raise AnalysisError(f"only {nfix} methods calling _fix_decl_name_type found (confirmed by reading: 3)")
+    # the exemptions (Decl / Typedef / Typename, "quals") rest on another fact of the parser: _fix_decl_name_type copies the declaration's qualifiers into
+    # the innermost TypeDecl, the only place the generator prints them from.  A declaration node that receives qualifiers from a specifier record and is
+    # NOT handed to _fix_decl_name_type keeps them in a field nobody prints.
+    nq = 0
+    # classes whose own `quals` field the generator prints somewhere, under a class test on the node's type (tag-only declarations)
+    printed_quals = set()
+    for gname, gfn in g.methods.items():
+        if not gfn.args.args or len(gfn.args.args) < 2:
+            continue
+        ann = gfn.args.args[1].annotation
+        gcls = ann.attr if isinstance(ann, ast.Attribute) else None
+        for a_ in ast.walk(gfn):
+            if isinstance(a_, ast.Attribute) and a_.attr == "quals" and isinstance(a_.value, ast.Name) and a_.value.id == gfn.args.args[1].arg and isinstance(a_.ctx, ast.Load):
+                holder = a_
+                while holder is not None and not isinstance(holder, ast.If):
+                    holder = getattr(holder, "_parent", None)
+                if holder is not None and any(isinstance(c_, ast.Call) and isinstance(c_.func, ast.Name) and c_.func.id == "isinstance" for c_ in ast.walk(holder.test)) \
+                        and any(isinstance(x_, (ast.AugAssign, ast.Return)) for st_ in holder.body for x_ in ast.walk(st_)):
+                    if gcls:
+                        printed_quals.add(gcls)
+    for m_, info in sorted(curw.items()):
+        fixed_nodes = {v for lab, fa in info["records"] if lab == "call:_fix_decl_name_type" for v in fa.get("p0", [])}
+        counters = {}
+        for lab, fa in info["records"]:
+            cls = lab.split(">")[-1]
+            if cls not in ("Decl", "Typedef", "Typename"):
+                continue
+            k = counters.get(cls, 0)
+            counters[cls] = k + 1
+            qv = [v for v in fa.get("quals", []) if v.endswith("[qual]") or "[qual]" in v]
+            if not qv:
+                continue
+            nq += 1
+            ok = f"new:{cls}#{k}" in fixed_nodes or any(v.startswith(f"new:{cls}#") for v in fixed_nodes)
+            if not ok and cls in printed_quals:
+                ok = True       # the generator prints the node's own quals where there is no TypeDecl (guarded by a class test on its type)
+            ctx.oblige("R-C07.4", f"{m_}: {cls}.quals from {qv[0]} is mirrored into the TypeDecl by _fix_decl_name_type", ok, sample={"rule": "R-C07.4", "method": m_, "node": cls, "quals from": qv, "handed to _fix_decl_name_type": sorted(fixed_nodes)})
+            if not ok:
+                viol("R-C07.4", f"quals-not-mirrored:{m_}:{cls}", f"{m_} builds a {cls} whose quals come from the specifier record ({qv[0]}) but never hands it to _fix_decl_name_type: the qualifiers stay in {cls}.quals only, "
+                     "which no visitor prints (the generator prints qualifiers from TypeDecl.quals) - `const struct s { int x; };` is generated without `const` and re-parses to a different tree", m_)
+    if nq < 3:
+        raise AnalysisError(f"only {nq} declaration nodes with qualifiers from a specifier record found (confirmed by reading: 4)")
 
     # absent vs empty: the parser builds Struct/Union with decls=None (no body) and decls=[] (empty body); the generator must tell them apart
     se = g.methods.get("_generate_struct_union_enum")
